@@ -160,6 +160,40 @@ def run(ctx):
             v = float(BaseRegularizer('params', float(s_))(IStub()))
             basecases.append((s_, Fraction(c_), v))
             oracle('base', abs(v - float(s_ * c_)) <= 1e-6 * max(1.0, float(s_ * c_)), 'base-not-strength-times-cost', {'strength': s_, 'cost': c_, 'cost_dtype': str(dt), 'impl': v})
+    # ---- (d3) strength exactly zero (first point of a strength sweep): the result is 0 x cost
+    for c_ in (1500, 1, 0):
+        for z in (0, 0.0):
+            v = float(BaseRegularizer('params', z)(Stub(torch, {'params': c_})))
+            basecases.append((Fraction(0), Fraction(c_), v))
+            oracle('base', v == 0.0, 'base-not-strength-times-cost', {'strength': z, 'cost': c_, 'impl': v})
+    # ---- (d4) ONE DUCCIO object called again and again with arbitrary (epoch, n_epochs): every call is the formula of its own
+    #      arguments (a repeated epoch with another n_epochs, default arguments in between)
+    for i in range(25 if ctx.quick else 250):
+        k = ctx.rng.randint(1, 3)
+        ms = gen_metrics(ctx.rng, k)
+        names = ['m%d' % j for j in range(k)]
+        d = DUCCIO({nm: torch.tensor(float(m[2])) for nm, m in zip(names, ms)}, final_strengths=tuple(torch.tensor(float(m[0])) for m in ms))
+        seq = []
+        e_fix = ctx.rng.randint(1, 10)
+        for _ in range(ctx.rng.randint(3, 6)):
+            r = ctx.rng.random()
+            if r < 0.2:
+                seq.append(None)                                   # default arguments
+            elif r < 0.7:
+                n = ctx.rng.randint(max(e_fix, 2), 50)
+                seq.append((e_fix, n))                             # same epoch, another schedule length
+            else:
+                n = ctx.rng.randint(1, 50)
+                seq.append((ctx.rng.randint(0, n), n))
+        for j, a in enumerate(seq):
+            st = Stub(torch, {nm: m[1] for nm, m in zip(names, ms)})
+            v = float(d(st) if a is None else d(st, epoch=a[0], n_epochs=a[1]))
+            e, n = (1, 1) if a is None else a
+            cases.append({'kind': 'reused-object', 'ms': ms, 'e': e, 'n': n, 'impl': v, 'grads': None})
+            fresh = DUCCIO({nm: torch.tensor(float(m[2])) for nm, m in zip(names, ms)}, final_strengths=tuple(torch.tensor(float(m[0])) for m in ms))
+            vf = float(fresh(Stub(torch, {nm: m[1] for nm, m in zip(names, ms)}), epoch=e, n_epochs=n))
+            oracle('reused-object', abs(v - vf) <= 1e-6 * max(1.0, abs(vf)), 'duccio-value-depends-on-earlier-calls',
+                   {'metrics(strength,cost,target)': ms, 'calls_so_far(epoch,n_epochs; None=defaults)': seq[:j + 1], 'impl': v, 'fresh_object_value': vf})
     # ---- (e) real PIT models
     import torch.nn as nn
     from plinio.methods import PIT
